@@ -534,7 +534,15 @@ func runOne(idx int, b *Behaviour, kind string, job *Job, rng *rand.Rand) Out {
 	if kind == "never" {
 		limit = 7 * time.Second
 	}
-	poll(limit, func() bool { return runtime.NumGoroutine() <= base })
+	poll(limit, func() bool {
+		if kind != "never" {
+			// an exchange may start late (its goroutine was not scheduled before): let it end, too
+			for i := 1; i <= ncalls(); i++ {
+				s.releaseCall(callAt(i), "never")
+			}
+		}
+		return runtime.NumGoroutine() <= base
+	})
 	alive := runtime.NumGoroutine() - base
 	if alive < 0 {
 		alive = 0
